@@ -108,7 +108,7 @@ def yaml_load(stream):
 
     try:
         value = yaml.load(stream, Loader=get_yaml_default_loader())
-    except ValueError as ex:  # raised by the constructors of explicitly tagged scalars, e.g. "!!int abc"
+    except (ValueError, AttributeError) as ex:  # raised by the constructors of explicitly tagged scalars, e.g. "!!int abc", "!!timestamp abc"
         raise yaml.YAMLError(str(ex)) from ex
     if isinstance(value, dict) and value and all(v is None for v in value.values()):
         if len(value) == 1 and stream.strip() == next(iter(value.keys())) + ":":
